@@ -55,7 +55,7 @@ pub fn run(ctx: &Ctx, id: &str) -> i32 {
         Prop::C01 => "55 shipped struct types x canonical values (fixed points of the reference codec): systematic presence masks (all absent, each optional field alone x N, all present) then random masks; numbers at digit-count boundaries, text/hex/bytes at the limits of every prefix style incl. 64 KiB. Case = (type, reference encoding B). x = T::decode(B); judged: decode(encode(x)) == x with the type's own PartialEq, nothing left over, and Debug still equal to the value's rendering. Non-trivial = non-empty body; distinct by hash of (type, B).",
         Prop::C03 => "same workload as C01; judged: T::decode(B) renders (derived Debug: field names and values) exactly as the canonical value V that the independent layout table encoded into B, nothing left over, and T::encode(T::decode(B)) == B byte for byte. Each optional field additionally alone (attribution). Non-trivial = non-empty body; distinct by hash of (type, B).",
         Prop::C13 => "per canonical value and per struct node of its reference chunk tree: all permutations of the tagged groups when <=6 (else sampled), a copy of every non-repeated group at every position, every non-empty subset of the mandatory groups removed, a foreign tag (1- and 2-byte, unknown to every struct reachable from the root) at every group position; enclosing length prefixes recomputed. Oracle: the reference decoder on the very same bytes; permutation -> same value; duplicate -> DuplicateTag(that tag); removal -> MissingRequiredTags(sorted); foreign tag -> error or exactly the value of the preceding bytes. Weakened inside repeated/positional-optional scopes. Non-trivial = every judged mutant; distinct by hash of (type, mutated bytes, kind).",
-        _ => "per canonical packet: suffixes {each single byte (all 256 on the first value of a type, sampled after), the packet itself, another valid packet, more digits/text, another element with the last field's tag, random <=64 bytes}: same value, remainder == suffix. Per nested length-prefixed element: attractive bytes placed right behind it inside its parent (a field of the container's own struct, a foreign TLV, more payload bytes), enclosing lengths recomputed; oracle: reference decoder on the same bytes. Non-trivial = every judged mutant; distinct by hash.",
+        _ => "per canonical packet: suffixes {each single byte (all 256 on the first value of a type, sampled after), the packet itself, another valid packet, more digits/text, another element with the last field's tag, random <=64 bytes, and for a sample of the values suffixes that take the whole input to 65536 .. 65541 bytes and beyond}: same value, remainder == suffix; where the library's own serialisation differs from the reference encoding, suffixes behind that as well (decode(own + s) == (decode(own), s)). Per nested length-prefixed element: attractive bytes placed right behind it inside its parent (a field of the container's own struct, a foreign TLV, more payload bytes), enclosing lengths recomputed; oracle: reference decoder on the same bytes. Non-trivial = every judged mutant; distinct by hash.",
     }
     .into();
     report.assumptions = vec![
